@@ -299,3 +299,6 @@ package common
 //@   modifies ver.pmbytes, ver.hash
 //@   ensures [cached] result == ver.hash && (old(ver.hash.HasValue()) ==> result == old(ver.hash) && ver.pmbytes == old(ver.pmbytes))
 //@   ensures [auth-untouched] ver.SignaturesMap == old(ver.SignaturesMap) && ver.AggregatedSignature == old(ver.AggregatedSignature)
+//@   -- C15/C17: the digest is never the all-zero hash (probability 2^-256 for Blake3): with [cached] this makes repeated calls on an
+//@   -- object return the same value. ASSUMED (cryptographic), not verified against the body.
+//@   assumes [nonzero] result.HasValue()
